@@ -148,6 +148,10 @@ def verify_function(reg: Registry, c: Contract) -> FnReport:
                             if n != 'orig' and not z3.eq(stx.h.arr[n], h0.arr[n]):
                                 ex.oblige('post.exc.%s.unchanged.%s@%s' % (x.exc, n, x.site), stx,
                                           stx.h.arr[n] == h0.arr[n], 'post.exc')
+        if c.solver_budget:
+            for o_ in ex.obligations:
+                if o_.kind != 'canary':
+                    o_.budget = c.solver_budget
         rep.obligations = ex.obligations
         rep.called = set(ex.called)
     except Unsupported as e:
